@@ -11,10 +11,13 @@ CLAIMED = {
     "C01": dict(
         text="Theorems (Props/C01.lean) about the model of transpiler.go + converters/bash for every well-formed AST: the script is shebang + helper routines + a sequence of the "
              "block grammar Shape (if/fi, loop with guarded increment, condition statements, exit test, body, done; non-empty bodies); loop flags _fv<n> numbered 0..n-1 in "
-             "start order, none shared; expressions emit only simple commands; helper counter strictly increasing. Tie: whole model pipeline (lexer, parser, transpiler, bash "
-             "emitter) vs real Transpile byte for byte, and wfStmts of every AST. Go meaning of the lines under /bin/bash: reference-interpreter oracle on executions (search, not proof).",
-        note=TB + "bash semantics and the Python reference interpreter (Go meaning with README caveats) are outside the theorems.",
-        technique="Lean 4 refinement theorem (statement walk -> block grammar) + byte-for-byte model/implementation correspondence + execution oracle",
+             "start order, none shared; expressions emit only simple commands; helper counter strictly increasing. SEMANTIC PRESERVATION (bash_preserves_scalar_semantics): for every "
+             "program of the scalar fragment (int/bool/string expressions, single and simultaneous assignment, if/else-if/else, loops with break/continue, print, panic) the emitted lines "
+             "are a block structure whose execution in the Lean bash model Sem/Bash prints what the source semantics Sem/Src prints and ends the same way - all programs, nestings, "
+             "iteration counts. Tie: whole model pipeline (lexer, parser, transpiler, bash emitter) vs real Transpile byte for byte, wfStmts of every AST, and in every run Sem/Bash "
+             "executed next to /bin/bash and Sem/Src next to the reference interpreter on the same generated programs (402 of 403 in the theorem's fragment in the quick tier).",
+        note=TB + "that /bin/bash reads the rendered text as the structured lines and executes them as Sem/Bash says, and that Sem/Src is Go's meaning, is validated by execution in every run, not proved.",
+        technique="Lean 4 compiler-correctness theorem (source semantics vs bash model, scalar fragment) + refinement to a block grammar + byte-for-byte model/implementation correspondence + both semantic models validated against /bin/bash and the reference interpreter",
         design="7/C01"),
     "C02": dict(
         text="Theorems (Props/C02.lean): a used call yields exactly the declared number of values; return stores _rv0.. in order and the call site copies them in order into fresh "
